@@ -296,7 +296,8 @@ func confirms(v *Violation, r *replayResult) bool {
 		return kindOK && r.Pos == base
 	case "monitor":
 		if v.Label == "shared-write" {
-			return r.Outcome == "fatal" && r.Kind == "race"
+			// a data race report, or an observable difference between concurrent readers
+			return (r.Outcome == "fatal" && r.Kind == "race") || (r.Outcome == "assert" && r.Label == "concurrent-reads-differ") || r.Outcome == "panic"
 		}
 		for _, mh := range r.Monitors {
 			if strings.HasPrefix(mh, v.Label) {
